@@ -12,11 +12,13 @@ namespace Dicom.Ref
 none of the places where the lazy reader differs by design (`LE.AnomStep`; for every token but an offset
 table this follows from the first part, `LE.calm_of_next`) -/
 def StepTo (s : RState) (t : Token) (s' : RState) : Prop :=
-  (∀ fuel, s.next (fuel + 1) = (some (.ok t), s')) ∧ LE.AnomStep s = false
+  (∀ fuel, s.next (fuel + 1) = (some (.ok t), s')) ∧ LE.AnomStep s = false ∧
+    s'.dec.ts = s.dec.ts ∧ s'.hardBreak = false
 
 theorem StepTo.of_plain {s s' : RState} {t : Token} (h : ∀ fuel, s.next (fuel + 1) = (some (.ok t), s'))
-    (hne : ∀ vs, t ≠ .offsetTable vs) : StepTo s t s' :=
-  ⟨h, LE.calm_of_next s t s' (h 0) hne⟩
+    (hne : ∀ vs, t ≠ .offsetTable vs) (hts : s'.dec.ts = s.dec.ts := by rfl)
+    (hhb : s'.hardBreak = false := by rfl) : StepTo s t s' :=
+  ⟨h, LE.calm_of_next s t s' (h 0) hne, hts, hhb⟩
 
 /-- successive `next()` calls yield exactly these tokens -/
 inductive Run : RState → List Token → RState → Prop
@@ -300,7 +302,7 @@ theorem run_pix {ts : Syntax} {dict : Tag → Option VR} {bot : List Nat} {frags
           ⟨⟨ts, dict, frags.flatMap (fragment be) ++ (seqDelim be ++ rest), pos + hd.length + 8 + 4 * bot.length⟩,
             false, false, true,
             ⟨true, 4 * bot.length, true, pos + hd.length + 8⟩ :: pixSq (pos + hd.length) :: stack, false, none⟩ := by
-        refine ⟨fun fuel => ?_, ?_⟩
+        refine ⟨fun fuel => ?_, ?_, rfl, rfl⟩
         · refine next_body _ _ _ fuel rfl (fun h => by simp at h) ?_
           exact body_offsetTable ts dict _ _ (4 * bot.length) _ _ none bot _ (len_ne_undef ok.botLen) (by omega) hrd
         · -- the offset table item is complete and a multiple of 4 bytes long: the lazy consumer reads the same bytes
